@@ -880,7 +880,7 @@ class BADS:
 
         # Initialize Gaussian process settings
         # Squared exponential kernel with separate length scales
-        optim_state["gp_cov_fun"] = 1
+        optim_state["gp_cov_fun"] = self.options["gp_cov_fun"]
 
         if optim_state.get("uncertainty_handling_level") == 0:
             # Observation noise for stability
